@@ -6,9 +6,12 @@
 // independent reader, writes the model's input (cases.txt), the observations
 // (impl.txt) and evaluates the property itself on the observations (oracle.txt).
 //
-// Mode "cli": the real binary. Mode "norm": sqlx.DevDriver.NormalizeSchema /
-// NormalizeRealm (through the sql/verifx hook) against a real SQLite file --
-// the SQLite driver is not a schema.Normalizer, so the CLI never reaches them.
+// Mode "cli": the real binary. Mode "api" (api.go): migrate.Executor.Replay,
+// migrate.Planner.Plan/Checkpoint and sqlx.DevDriver.NormalizeSchema /
+// NormalizeRealm (through the sql/verifx hook; the SQLite driver is not a
+// schema.Normalizer, so the CLI never reaches them) against a real SQLite file
+// opened through an ExecQuerier that makes the n-th ExecContext fail -- every
+// statement of the bodies and every statement of the RestoreFunc.
 package main
 
 import (
@@ -32,10 +35,7 @@ import (
 	"time"
 
 	"ariga.io/atlas/sql/migrate"
-	"ariga.io/atlas/sql/schema"
-	"ariga.io/atlas/sql/sqlclient"
 	_ "ariga.io/atlas/sql/sqlite"
-	"ariga.io/atlas/sql/verifx"
 	_ "github.com/mattn/go-sqlite3"
 
 	"verifharness/internal/out"
@@ -74,17 +74,21 @@ type source struct {
 }
 type tcase struct {
 	id      string
-	norm    bool
-	cmd     string // validate lint diff sdiff sapply
+	norm    string // "0": the driver is no schema.Normalizer; "r": NormalizeRealm; "s": NormalizeSchema
+	cmd     string // validate lint diff sdiff sapply sinspect checkpoint
 	latest  int
 	changes bool
+	fs, rs  []bool // fault streams: ExecContext calls of the bodies / of the RestoreFuncs (true = fails)
 	start   string // name of the start state
 	db      []obj
+	setup   []string // SQL that creates the start state
 	dir     []mfile
 	from    source
 	to      source
-	api     string // norm mode: "schema" | "realm"
-	label   string // generator bucket
+	// how the case is run (not part of the model input)
+	via   string // cli: "" (flags) | "env" (atlas.hcl) | "git" (lint --git-base)
+	ro    bool   // cli: read-only connection (?_query_only=1): every write fails
+	label string // generator bucket
 }
 
 func hx(s string) string {
@@ -155,7 +159,7 @@ func (s source) tokens() string {
 	switch s.kind {
 	case "sql":
 		return "sql " + mstmtsTokens(s.sql)
-	case "dir":
+	case "dir", "sdir":
 		return "dir " + dirTokens(s.dir)
 	case "hcl":
 		var b strings.Builder
@@ -167,9 +171,20 @@ func (s source) tokens() string {
 			}
 		}
 		return b.String()
+	case "url":
+		return "url"
 	default:
 		return "none"
 	}
+}
+
+func bitsTokens(bs []bool) string {
+	var b strings.Builder
+	fmt.Fprintf(&b, "%d", len(bs))
+	for _, x := range bs {
+		fmt.Fprintf(&b, " %d", b01(x))
+	}
+	return b.String()
 }
 
 func b01(b bool) int {
@@ -181,13 +196,9 @@ func b01(b bool) int {
 
 func (c *tcase) line() string {
 	var b strings.Builder
-	fmt.Fprintf(&b, "%d %s %d %d %d", b01(c.norm), c.cmd, c.latest, b01(c.changes), len(c.db))
+	fmt.Fprintf(&b, "%s %s %d %d %s %s %d", c.norm, c.cmd, c.latest, b01(c.changes), bitsTokens(c.fs), bitsTokens(c.rs), len(c.db))
 	for _, o := range c.db {
-		k := o.kind
-		if k == "x" || k == "y" {
-			k = "t" // a virtual table is a sqlite_master row of type 'table'
-		}
-		fmt.Fprintf(&b, " %s %s %s %d", k, hx(o.name), hx(o.tbl), o.rows)
+		fmt.Fprintf(&b, " %s %s %s %d", o.kind, hx(o.name), hx(o.tbl), o.rows)
 	}
 	fmt.Fprintf(&b, " %s %s %s", dirTokens(c.dir), c.from.tokens(), c.to.tokens())
 	return b.String()
@@ -195,24 +206,123 @@ func (c *tcase) line() string {
 
 // ---------------------------------------------------------------- start states
 
+// A start state: the SQL that creates it and the sqlite_master rows (with row
+// counts) the model is given. Virtual tables are rows of type 'table'; their
+// shadow tables are not listed (they change no verdict: the database is not
+// clean anyway).
 type startState struct {
-	name string
-	db   []obj
+	name  string
+	db    []obj
+	setup []string
 }
 
-var starts = []startState{
-	{"absent", nil},
-	{"empty", nil},
-	{"tables", []obj{{"t", "t9", "t9", 2}, {"i", "i9", "t9", 0}, {"t", "t8", "t8", 0}}},
-	{"view", []obj{{"v", "v9", "v9", 0}}},
-	{"bare", []obj{{"t", "t9", "t9", 0}}},
-	{"trigger", []obj{{"t", "t9", "t9", 0}, {"g", "g9", "t9", 0}}},
-	{"hidden-libsql", []obj{{"t", "libsql_users", "libsql_users", 2}}},
-	{"hidden-sqlitedb", []obj{{"t", "sqlitedb", "sqlitedb", 1}, {"i", "i9", "sqlitedb", 0}}},
-	{"hidden-seq", []obj{{"t", "sqlite_sequence", "sqlite_sequence", 0}}},
-	// only virtual tables (kind "x": sqlite_master.type = 'table', so a KTable for the model) and their shadow tables
-	{"virtual", []obj{{"x", "vt9", "vt9", 2}}},
-	{"virtual-fts", []obj{{"y", "ft9", "ft9", 1}}},
+const tblCols = "(id INTEGER PRIMARY KEY, v TEXT)"
+
+func rowsSQL(t string, n int) []string {
+	var l []string
+	for r := 1; r <= n; r++ {
+		l = append(l, fmt.Sprintf("INSERT INTO %s (id, v) VALUES (%d, 'row%d')", t, r, r))
+	}
+	return l
+}
+
+// comboStart builds the database that has exactly the given features:
+// T table, I index, V view, G trigger, X virtual table, H table with a name
+// the inspection hides, R rows. Dependent objects hang on the hidden table if
+// there is one, else on t9 (created when needed); a trigger next to a view is
+// an INSTEAD OF trigger on the view (no table at all).
+func comboStart(fe string) startState {
+	has := func(c string) bool { return strings.Contains(fe, c) }
+	st := startState{name: "combo-" + fe}
+	carrier := ""
+	rows := 0
+	if has("R") {
+		rows = 2
+	}
+	switch {
+	case has("H"):
+		carrier = "libsql_users"
+	case has("T") || has("I") || (has("G") && !has("V")) || (has("R") && !has("X")):
+		carrier = "t9"
+	}
+	if carrier != "" {
+		st.setup = append(st.setup, "CREATE TABLE "+carrier+" "+tblCols)
+		st.setup = append(st.setup, rowsSQL(carrier, rows)...)
+		st.db = append(st.db, obj{"t", carrier, carrier, rows})
+	}
+	if has("H") && has("T") {
+		st.setup = append(st.setup, "CREATE TABLE t9 "+tblCols)
+		st.db = append(st.db, obj{"t", "t9", "t9", 0})
+	}
+	if has("X") {
+		st.setup = append(st.setup, "CREATE VIRTUAL TABLE vt9 USING rtree(id, minx, maxx)")
+		n := 0
+		if carrier == "" {
+			n = rows
+		}
+		for r := 1; r <= n; r++ {
+			st.setup = append(st.setup, fmt.Sprintf("INSERT INTO vt9 VALUES (%d, %d, %d)", r, r, r+1))
+		}
+		st.db = append(st.db, obj{"t", "vt9", "vt9", n})
+	}
+	if has("I") {
+		st.setup = append(st.setup, "CREATE INDEX i9 ON "+carrier+" (v)")
+		st.db = append(st.db, obj{"i", "i9", carrier, 0})
+	}
+	if has("V") {
+		st.setup = append(st.setup, "CREATE VIEW v9 AS SELECT 1 AS x")
+		st.db = append(st.db, obj{"v", "v9", "v9", 0})
+	}
+	if has("G") {
+		if has("V") {
+			st.setup = append(st.setup, "CREATE TRIGGER g9 INSTEAD OF INSERT ON v9 BEGIN SELECT 1; END")
+			st.db = append(st.db, obj{"g", "g9", "v9", 0})
+		} else {
+			st.setup = append(st.setup, "CREATE TRIGGER g9 AFTER INSERT ON "+carrier+" BEGIN SELECT 1; END")
+			st.db = append(st.db, obj{"g", "g9", carrier, 0})
+		}
+	}
+	return st
+}
+
+const wasm = "libsql_wasm_func_table"
+
+var starts = buildStarts()
+
+func buildStarts() []startState {
+	l := []startState{
+		{name: "absent"},
+		{name: "empty", setup: []string{"CREATE TABLE x (a)", "DROP TABLE x", "VACUUM"}},
+		// what SQLite / `atlas schema clean` leave behind: engine bookkeeping only (accepted)
+		{name: "bk-seq", db: []obj{{"t", "sqlite_sequence", "sqlite_sequence", 0}},
+			setup: []string{"CREATE TABLE x (id INTEGER PRIMARY KEY AUTOINCREMENT)", "DROP TABLE x"}},
+		{name: "bk-seq-stat", db: []obj{{"t", "sqlite_sequence", "sqlite_sequence", 0}, {"t", "sqlite_stat1", "sqlite_stat1", 0}},
+			setup: []string{"CREATE TABLE x (id INTEGER PRIMARY KEY AUTOINCREMENT, v TEXT)", "CREATE INDEX xi ON x (v)", "INSERT INTO x (v) VALUES ('a')", "ANALYZE", "DROP TABLE x"}},
+		{name: "bk-wasm", db: []obj{{"t", wasm, wasm, 0}},
+			setup: []string{"CREATE TABLE " + wasm + " (name text PRIMARY KEY, body text) WITHOUT ROWID"}},
+		{name: "bk-wasm-idx", db: []obj{{"t", wasm, wasm, 1}, {"i", "sqlite_autoindex_" + wasm + "_1", wasm, 0}},
+			setup: []string{"CREATE TABLE " + wasm + " (name text PRIMARY KEY, body text)", "INSERT INTO " + wasm + " VALUES ('f', 'x')"}},
+		// user databases
+		{name: "tables", db: []obj{{"t", "t9", "t9", 2}, {"i", "i9", "t9", 0}, {"t", "t8", "t8", 0}},
+			setup: append(append([]string{"CREATE TABLE t9 " + tblCols}, rowsSQL("t9", 2)...), "CREATE INDEX i9 ON t9 (v)", "CREATE TABLE t8 "+tblCols)},
+		{name: "autoinc", db: []obj{{"t", "t9", "t9", 1}, {"t", "sqlite_sequence", "sqlite_sequence", 1}},
+			setup: []string{"CREATE TABLE t9 (id INTEGER PRIMARY KEY AUTOINCREMENT, v TEXT)", "INSERT INTO t9 (v) VALUES ('a')"}},
+		{name: "hidden-sqlitedb", db: []obj{{"t", "sqlitedb", "sqlitedb", 1}, {"i", "i9", "sqlitedb", 0}},
+			setup: append(append([]string{"CREATE TABLE sqlitedb " + tblCols}, rowsSQL("sqlitedb", 1)...), "CREATE INDEX i9 ON sqlitedb (v)")},
+		{name: "hidden-libsqlx", db: []obj{{"t", "libsqlx", "libsqlx", 0}}, setup: []string{"CREATE TABLE libsqlx " + tblCols}},
+		{name: "hidden-wasm-upper", db: []obj{{"t", strings.ToUpper(wasm), strings.ToUpper(wasm), 0}}, setup: []string{"CREATE TABLE " + strings.ToUpper(wasm) + " " + tblCols}},
+		{name: "hidden-wasm-longer", db: []obj{{"t", wasm + "x", wasm + "x", 1}}, setup: append([]string{"CREATE TABLE " + wasm + "x " + tblCols}, rowsSQL(wasm+"x", 1)...)},
+		{name: "virtual-fts", db: []obj{{"t", "ft9", "ft9", 1}}, setup: []string{"CREATE VIRTUAL TABLE ft9 USING fts4(body)", "INSERT INTO ft9 (body) VALUES ('row1')"}},
+	}
+	// every feature singly and every pair of features (exhaustive)
+	fe := "TIVGXHR"
+	for i := 0; i < len(fe); i++ {
+		l = append(l, comboStart(fe[i:i+1]))
+		for j := i + 1; j < len(fe); j++ {
+			l = append(l, comboStart(fe[i:i+1]+fe[j:j+1]))
+		}
+	}
+	return l
 }
 
 func startByName(n string) startState {
@@ -233,8 +343,8 @@ func sqliteOpen(path string, ro bool) (*sql.DB, error) {
 }
 
 // createStart writes the start database file (nothing for "absent").
-func createStart(path string, st startState) error {
-	if st.name == "absent" {
+func createStart(path string, c *tcase) error {
+	if c.start == "absent" {
 		return nil
 	}
 	db, err := sqliteOpen(path, false)
@@ -242,40 +352,7 @@ func createStart(path string, st startState) error {
 		return err
 	}
 	defer db.Close()
-	var stmts []string
-	if st.name == "empty" {
-		stmts = []string{"CREATE TABLE x (a)", "DROP TABLE x", "VACUUM"}
-	}
-	if st.name == "hidden-seq" {
-		stmts = []string{"CREATE TABLE x (id INTEGER PRIMARY KEY AUTOINCREMENT)", "DROP TABLE x"}
-	} else {
-		for _, o := range st.db {
-			switch o.kind {
-			case "t":
-				stmts = append(stmts, fmt.Sprintf("CREATE TABLE %s (id INTEGER PRIMARY KEY, v TEXT)", o.name))
-				for r := 1; r <= o.rows; r++ {
-					stmts = append(stmts, fmt.Sprintf("INSERT INTO %s (id, v) VALUES (%d, 'row%d')", o.name, r, r))
-				}
-			case "x":
-				stmts = append(stmts, fmt.Sprintf("CREATE VIRTUAL TABLE %s USING rtree(id, minx, maxx)", o.name))
-				for r := 1; r <= o.rows; r++ {
-					stmts = append(stmts, fmt.Sprintf("INSERT INTO %s VALUES (%d, %d, %d)", o.name, r, r, r+1))
-				}
-			case "y":
-				stmts = append(stmts, fmt.Sprintf("CREATE VIRTUAL TABLE %s USING fts4(body)", o.name))
-				for r := 1; r <= o.rows; r++ {
-					stmts = append(stmts, fmt.Sprintf("INSERT INTO %s (body) VALUES ('row%d')", o.name, r))
-				}
-			case "i":
-				stmts = append(stmts, fmt.Sprintf("CREATE INDEX %s ON %s (v)", o.name, o.tbl))
-			case "v":
-				stmts = append(stmts, fmt.Sprintf("CREATE VIEW %s AS SELECT 1 AS x", o.name))
-			case "g":
-				stmts = append(stmts, fmt.Sprintf("CREATE TRIGGER %s AFTER INSERT ON %s BEGIN SELECT 1; END", o.name, o.tbl))
-			}
-		}
-	}
-	for _, s := range stmts {
+	for _, s := range c.setup {
 		if _, err := db.Exec(s); err != nil {
 			return fmt.Errorf("%s: %w", s, err)
 		}
@@ -283,23 +360,27 @@ func createStart(path string, st startState) error {
 	return nil
 }
 
+// bookkeeping: the row belongs to a table of the engine itself (the property's
+// "contains anything" does not count them; see Props_C14.v).
+func bookkeeping(tbl string) bool {
+	return strings.HasPrefix(strings.ToLower(tbl), "sqlite_") || tbl == wasm
+}
+
 // dump is the independent reader: sqlite_master plus every row of every table.
-// objs is the number of sqlite_master rows.
-func dump(path string) (text string, objs int, err error) {
-	if _, serr := os.Stat(path); serr != nil {
-		return "", 0, nil
-	}
-	if fi, _ := os.Stat(path); fi != nil && fi.Size() == 0 {
-		return "", 0, nil
+// objs is the number of sqlite_master rows, user the number of those that do
+// not belong to a bookkeeping table of the engine.
+func dump(path string) (text string, objs, user int, err error) {
+	if fi, serr := os.Stat(path); serr != nil || fi.Size() == 0 {
+		return "", 0, 0, nil
 	}
 	db, err := sqliteOpen(path, true)
 	if err != nil {
-		return "", 0, err
+		return "", 0, 0, err
 	}
 	defer db.Close()
 	rows, err := db.Query("SELECT type, name, tbl_name, ifnull(sql, '') FROM sqlite_master ORDER BY type, name")
 	if err != nil {
-		return "", 0, err
+		return "", 0, 0, err
 	}
 	var b strings.Builder
 	var tables []string
@@ -307,9 +388,12 @@ func dump(path string) (text string, objs int, err error) {
 		var t, n, tn, s string
 		if err := rows.Scan(&t, &n, &tn, &s); err != nil {
 			rows.Close()
-			return "", 0, err
+			return "", 0, 0, err
 		}
 		objs++
+		if !bookkeeping(tn) {
+			user++
+		}
 		fmt.Fprintf(&b, "%s|%s|%s|%s\n", t, n, tn, s)
 		if t == "table" {
 			tables = append(tables, n)
@@ -319,7 +403,7 @@ func dump(path string) (text string, objs int, err error) {
 	for _, t := range tables {
 		rs, err := db.Query(fmt.Sprintf("SELECT * FROM `%s` ORDER BY 1", t))
 		if err != nil {
-			return "", 0, err
+			return "", 0, 0, err
 		}
 		cols, _ := rs.Columns()
 		for rs.Next() {
@@ -330,7 +414,7 @@ func dump(path string) (text string, objs int, err error) {
 			}
 			if err := rs.Scan(ptrs...); err != nil {
 				rs.Close()
-				return "", 0, err
+				return "", 0, 0, err
 			}
 			fmt.Fprintf(&b, "row %s:", t)
 			for _, v := range vals {
@@ -343,7 +427,7 @@ func dump(path string) (text string, objs int, err error) {
 		}
 		rs.Close()
 	}
-	return b.String(), objs, nil
+	return b.String(), objs, user, nil
 }
 
 func fileBytes(path string) []byte {
@@ -369,6 +453,39 @@ func snapDir(root string) map[string]string {
 	return m
 }
 
+// dirDiffs compares two snapshots; the dev/target database files, the process'
+// own HOME/TMPDIR and git's metadata are not part of "the directory".
+func dirDiffs(before, after map[string]string) []string {
+	skip := func(k string) bool {
+		for _, p := range []string{"dev.db", "target.db", "other.db", "home/", "tmp/", ".git/"} {
+			if strings.HasPrefix(k, p) {
+				return true
+			}
+		}
+		return false
+	}
+	var diffs []string
+	for k, v := range before {
+		if skip(k) {
+			continue
+		}
+		v2, ok := after[k]
+		switch {
+		case !ok:
+			diffs = append(diffs, "removed:"+k)
+		case v != v2:
+			diffs = append(diffs, "changed:"+k)
+		}
+	}
+	for k := range after {
+		if _, ok := before[k]; !ok && !skip(k) {
+			diffs = append(diffs, "added:"+k)
+		}
+	}
+	sort.Strings(diffs)
+	return diffs
+}
+
 // ---------------------------------------------------------------- writing inputs
 
 func fileText(f mfile) string {
@@ -383,7 +500,7 @@ func fileText(f mfile) string {
 	return b.String()
 }
 
-func writeMigrationDir(path string, d []mfile) error {
+func writeMigrationDir(path string, d []mfile, sum bool) error {
 	if err := os.MkdirAll(path, 0o755); err != nil {
 		return err
 	}
@@ -393,15 +510,18 @@ func writeMigrationDir(path string, d []mfile) error {
 			return err
 		}
 	}
+	if !sum {
+		return nil
+	}
 	ld, err := migrate.NewLocalDir(path)
 	if err != nil {
 		return err
 	}
-	sum, err := ld.Checksum()
+	hf, err := ld.Checksum()
 	if err != nil {
 		return err
 	}
-	return migrate.WriteSumFile(ld, sum)
+	return migrate.WriteSumFile(ld, hf)
 }
 
 func hclText(ts []htable) string {
@@ -426,9 +546,21 @@ func writeSource(root, name string, s source) (string, error) {
 	case "hcl":
 		p := filepath.Join(root, name+".hcl")
 		return "file://" + p, os.WriteFile(p, []byte(hclText(s.hcl)), 0o644)
-	case "dir":
+	case "dir": // a migration directory (with atlas.sum)
 		p := filepath.Join(root, name+"_migrations")
-		return "file://" + p, writeMigrationDir(p, s.dir)
+		return "file://" + p, writeMigrationDir(p, s.dir, true)
+	case "sdir": // a schema directory: SQL files without a sum file, replayed in name order
+		p := filepath.Join(root, name+"_schema")
+		return "file://" + p, writeMigrationDir(p, s.dir, false)
+	case "url": // another database, read by inspection
+		p := filepath.Join(root, "other.db")
+		db, err := sqliteOpen(p, false)
+		if err != nil {
+			return "", err
+		}
+		defer db.Close()
+		_, err = db.Exec("CREATE TABLE tu " + tblCols)
+		return "sqlite://" + p, err
 	}
 	return "", nil
 }
@@ -442,17 +574,21 @@ type result struct {
 	empty     bool
 	dirw      bool
 	bytesSame bool
-	startObjs int
+	startObjs int // sqlite_master rows before
+	startUser int // ... that are not engine bookkeeping
 	exit      int
 	dirDiff   string
 	output    string
 	corrupt   string
 	err       error
+	bodyCalls int // api stage: ExecContext calls of bodies / of RestoreFuncs seen
+	restCalls int
 }
 
 var (
 	markerRe   = regexp.MustCompile(`/\*m(\d+)\*/`)
 	notCleanRe = regexp.MustCompile(`connected database is not clean`)
+	readonlyRe = regexp.MustCompile(`attempt to write a readonly database`)
 )
 
 type lintReport struct {
@@ -466,11 +602,9 @@ func classify(c *tcase, exit int, output string) string {
 	if notCleanRe.MatchString(output) {
 		return "refused"
 	}
-	if c.cmd == "lint" {
-		var rep lintReport
-		if err := json.Unmarshal([]byte(output), &rep); err != nil {
-			return "err:other"
-		}
+	var rep lintReport
+	// (a lint run whose restore fails too ends with a plain error instead of the report)
+	if c.cmd == "lint" && json.Unmarshal([]byte(output), &rep) == nil {
 		for _, st := range rep.Steps {
 			if st.Name != "Replay Migration Files" || st.Error == "" {
 				continue
@@ -483,6 +617,9 @@ func classify(c *tcase, exit int, output string) string {
 				if m := fileRe.FindStringSubmatch(f.Name); m != nil && f.Error != "" {
 					return "fail:file" + m[1]
 				}
+			}
+			if readonlyRe.MatchString(st.Error) {
+				return "rfail"
 			}
 			return "err:other"
 		}
@@ -501,7 +638,19 @@ func classify(c *tcase, exit int, output string) string {
 	if exit == 0 {
 		return "ok"
 	}
+	if readonlyRe.MatchString(output) {
+		return "rfail" // no statement failed, the restore did
+	}
 	return "err:other"
+}
+
+func gitRun(root string, args ...string) error {
+	cmd := exec.Command("git", append([]string{"-C", root, "-c", "init.defaultBranch=master", "-c", "user.name=v", "-c", "user.email=v@example.invalid"}, args...)...)
+	cmd.Env = []string{"GIT_CONFIG_GLOBAL=/dev/null", "GIT_CONFIG_NOSYSTEM=1", "HOME=" + filepath.Join(root, "home"), "PATH=" + os.Getenv("PATH")}
+	if out, err := cmd.CombinedOutput(); err != nil {
+		return fmt.Errorf("git %v: %v: %s", args, err, out)
+	}
+	return nil
 }
 
 func runCLI(c *tcase, bin, tmpRoot string) (r result) {
@@ -515,13 +664,12 @@ func runCLI(c *tcase, bin, tmpRoot string) (r result) {
 		os.MkdirAll(filepath.Join(root, d), 0o755)
 	}
 	devPath := filepath.Join(root, "dev.db")
-	st := startState{c.start, c.db}
-	if err := createStart(devPath, st); err != nil {
+	if err := createStart(devPath, c); err != nil {
 		r.err = fmt.Errorf("create start: %w", err)
 		return
 	}
 	migDir := filepath.Join(root, "migrations")
-	if err := writeMigrationDir(migDir, c.dir); err != nil {
+	if err := writeMigrationDir(migDir, c.dir, true); err != nil {
 		r.err = fmt.Errorf("write dir: %w", err)
 		return
 	}
@@ -536,33 +684,77 @@ func runCLI(c *tcase, bin, tmpRoot string) (r result) {
 		return
 	}
 	devURL := "sqlite://" + devPath
+	if c.ro {
+		devURL += "?_query_only=1"
+	}
 	var args []string
 	switch c.cmd {
 	case "validate":
 		args = []string{"migrate", "validate", "--dir", "file://" + migDir, "--dev-url", devURL}
 	case "lint":
-		args = []string{"migrate", "lint", "--dir", "file://" + migDir, "--dev-url", devURL, "--latest", strconv.Itoa(c.latest), "--format", "{{ json . }}"}
+		args = []string{"migrate", "lint", "--dir", "file://" + migDir, "--dev-url", devURL, "--format", "{{ json . }}"}
+		if c.via == "git" {
+			// the first len-latest files are on master, the latest ones are added on the branch
+			if err := gitRun(root, "init", "-q"); err != nil {
+				r.err = err
+				return
+			}
+			base := []string{"add", "-f", "migrations/atlas.sum"}
+			for i := 0; i < len(c.dir)-c.latest; i++ {
+				base = append(base, fmt.Sprintf("migrations/%d_f%d.sql", i+1, i+1))
+			}
+			for _, a := range [][]string{base, {"commit", "-q", "--allow-empty", "-m", "base"}, {"checkout", "-q", "-b", "feature"}, {"add", "-f", "migrations"}, {"commit", "-q", "--allow-empty", "-m", "new"}} {
+				if err := gitRun(root, a...); err != nil {
+					r.err = err
+					return
+				}
+			}
+			args = append(args, "--git-base", "master", "--git-dir", root)
+		} else {
+			args = append(args, "--latest", strconv.Itoa(c.latest))
+		}
 	case "diff":
 		args = []string{"migrate", "diff", "next", "--dir", "file://" + migDir, "--dev-url", devURL, "--to", toURL}
 	case "sdiff":
 		args = []string{"schema", "diff", "--dev-url", devURL, "--from", fromURL, "--to", toURL}
 	case "sapply":
 		args = []string{"schema", "apply", "--url", "sqlite://" + filepath.Join(root, "target.db"), "--dev-url", devURL, "--to", toURL, "--auto-approve"}
+	case "sinspect":
+		args = []string{"schema", "inspect", "--url", fromURL, "--dev-url", devURL}
 	}
-	before, objs, err := dump(devPath)
+	if c.via == "env" {
+		// the same command configured by a project file instead of flags
+		var b strings.Builder
+		fmt.Fprintf(&b, "env \"local\" {\n  dev = %q\n", devURL)
+		if toURL != "" {
+			fmt.Fprintf(&b, "  src = %q\n", toURL)
+		}
+		fmt.Fprintf(&b, "  migration {\n    dir = %q\n  }\n}\n", "file://"+migDir)
+		cfg := filepath.Join(root, "atlas.hcl")
+		if err := os.WriteFile(cfg, []byte(b.String()), 0o644); err != nil {
+			r.err = err
+			return
+		}
+		switch c.cmd {
+		case "validate":
+			args = []string{"migrate", "validate", "-c", "file://" + cfg, "--env", "local"}
+		case "diff":
+			args = []string{"migrate", "diff", "next", "-c", "file://" + cfg, "--env", "local"}
+		}
+	}
+	before, objs, user, err := dump(devPath)
 	if err != nil {
 		r.err = fmt.Errorf("dump before: %w", err)
 		return
 	}
 	bytesBefore := fileBytes(devPath)
 	dirBefore := snapDir(root)
-	delete(dirBefore, "dev.db")
 
 	ctx, cancel := context.WithTimeout(context.Background(), 120*time.Second)
 	defer cancel()
 	cmd := exec.CommandContext(ctx, bin, args...)
 	cmd.Dir = root
-	cmd.Env = []string{"ATLAS_NO_UPDATE_NOTIFIER=1", "TMPDIR=" + filepath.Join(root, "tmp"), "HOME=" + filepath.Join(root, "home"), "PATH=" + os.Getenv("PATH"), "ATLAS_NO_UPGRADE_SUGGESTIONS=1"}
+	cmd.Env = []string{"ATLAS_NO_UPDATE_NOTIFIER=1", "TMPDIR=" + filepath.Join(root, "tmp"), "HOME=" + filepath.Join(root, "home"), "PATH=" + os.Getenv("PATH"), "ATLAS_NO_UPGRADE_SUGGESTIONS=1", "GIT_CONFIG_GLOBAL=/dev/null", "GIT_CONFIG_NOSYSTEM=1"}
 	var ob bytes.Buffer
 	cmd.Stdout, cmd.Stderr = &ob, &ob
 	rerr := cmd.Run()
@@ -580,34 +772,14 @@ func runCLI(c *tcase, bin, tmpRoot string) (r result) {
 		r.err = fmt.Errorf("timeout: %v", args)
 		return
 	}
-	after, objsAfter, err := dump(devPath)
+	after, objsAfter, _, err := dump(devPath)
 	if err != nil {
 		// the independent reader cannot read the file any more: the command damaged it
 		r.corrupt = err.Error()
 		after, objsAfter = "UNREADABLE", -1
 	}
 	bytesAfter := fileBytes(devPath)
-	dirAfter := snapDir(root)
-	for _, k := range []string{"dev.db", "dev.db-journal", "target.db"} {
-		delete(dirAfter, k)
-	}
-	// directory comparison: everything the harness wrote (migration dir, sources)
-	var diffs []string
-	for k, v := range dirBefore {
-		v2, ok := dirAfter[k]
-		switch {
-		case !ok:
-			diffs = append(diffs, "removed:"+k)
-		case v != v2:
-			diffs = append(diffs, "changed:"+k)
-		}
-	}
-	for k := range dirAfter {
-		if _, ok := dirBefore[k]; !ok && !strings.HasPrefix(k, "home/") && !strings.HasPrefix(k, "tmp/") {
-			diffs = append(diffs, "added:"+k)
-		}
-	}
-	sort.Strings(diffs)
+	diffs := dirDiffs(dirBefore, snapDir(root))
 	r.output = ob.String()
 	r.exit = exit
 	r.outcome = classify(c, exit, r.output)
@@ -616,133 +788,70 @@ func runCLI(c *tcase, bin, tmpRoot string) (r result) {
 	r.dirw = len(diffs) > 0
 	r.dirDiff = strings.Join(diffs, ",")
 	r.bytesSame = bytes.Equal(bytesBefore, bytesAfter)
-	r.startObjs = objs
+	r.startObjs, r.startUser = objs, user
 	r.obs = fmt.Sprintf("out=%s same=%d empty=%d dirw=%d", r.outcome, b01(r.same), b01(r.empty), b01(r.dirw))
-	return
-}
-
-// ---------------------------------------------------------------- the API stage (NormalizeSchema / NormalizeRealm)
-
-// noAddSchema is the SQLite driver with "ADD SCHEMA main IF NOT EXISTS" as a
-// no-op (SQLite's planner rejects AddSchema, so NormalizeRealm would stop
-// before its first write otherwise).
-type noAddSchema struct{ migrate.Driver }
-
-func (d noAddSchema) ApplyChanges(ctx context.Context, changes []schema.Change, opts ...migrate.PlanOption) error {
-	var cs []schema.Change
-	for _, c := range changes {
-		if _, ok := c.(*schema.AddSchema); !ok {
-			cs = append(cs, c)
-		}
-	}
-	return d.Driver.ApplyChanges(ctx, cs, opts...)
-}
-
-func runNorm(c *tcase, tmpRoot string) (r result) {
-	root, err := os.MkdirTemp(tmpRoot, "c14n-")
-	if err != nil {
-		r.err = err
-		return
-	}
-	defer os.RemoveAll(root)
-	devPath := filepath.Join(root, "dev.db")
-	if err := createStart(devPath, startState{c.start, c.db}); err != nil {
-		r.err = err
-		return
-	}
-	before, objs, err := dump(devPath)
-	if err != nil {
-		r.err = err
-		return
-	}
-	bytesBefore := fileBytes(devPath)
-	ctx := context.Background()
-	cl, err := sqlclient.Open(ctx, "sqlite://"+devPath)
-	if err != nil {
-		r.err = err
-		return
-	}
-	s := schema.New("main")
-	for _, t := range c.to.hcl {
-		tb := schema.NewTable(t.name).
-			AddColumns(schema.NewIntColumn("id", "integer"), schema.NewNullStringColumn("v", "text"))
-		tb.SetPrimaryKey(schema.NewPrimaryKey(tb.Columns[0]))
-		for _, i := range t.idx {
-			tb.AddIndexes(schema.NewIndex(i.name).AddColumns(tb.Columns[1]))
-		}
-		s.AddTables(tb)
-	}
-	var nerr error
-	if c.api == "realm" {
-		_, nerr = verifx.NormalizeRealm(ctx, noAddSchema{cl.Driver}, schema.NewRealm(s))
-	} else {
-		_, nerr = verifx.NormalizeSchema(ctx, cl.Driver, s)
-	}
-	cl.Close()
-	var (
-		nc *migrate.NotCleanError
-		ap interface{ Applied() int }
-	)
-	switch {
-	case nerr == nil:
-		r.outcome = "ok"
-	case errors.As(nerr, &nc):
-		r.outcome = "refused"
-	case errors.As(nerr, &ap):
-		r.outcome = fmt.Sprintf("fail:%d", ap.Applied())
-	default:
-		r.outcome = "err:other"
-		r.output = nerr.Error()
-	}
-	after, objsAfter, err := dump(devPath)
-	if err != nil {
-		r.corrupt = err.Error()
-		after, objsAfter = "UNREADABLE", -1
-	}
-	r.same = before == after
-	r.empty = objsAfter == 0
-	r.bytesSame = bytes.Equal(bytesBefore, fileBytes(devPath))
-	r.startObjs = objs
-	if nerr != nil {
-		r.output = nerr.Error()
-	}
-	r.obs = fmt.Sprintf("out=%s same=%d empty=%d dirw=0", r.outcome, b01(r.same), b01(r.empty))
 	return
 }
 
 // ---------------------------------------------------------------- oracle: the property on the observation
 
-func hclOnly(c *tcase) bool {
-	// On SQLite (not a schema.Normalizer) HCL sources open no session at all.
+// noSession: none of the command's sources needs the dev database (database
+// URLs; HCL files on a driver that is no schema.Normalizer).
+func noSession(c *tcase) bool {
+	uses := func(s source) bool {
+		switch s.kind {
+		case "sql", "dir", "sdir":
+			return true
+		case "hcl":
+			return c.norm != "0"
+		}
+		return false
+	}
 	switch c.cmd {
 	case "sdiff":
-		return c.from.kind == "hcl" && c.to.kind == "hcl"
+		return !uses(c.from) && !uses(c.to)
 	case "sapply":
-		return c.to.kind == "hcl"
+		return !uses(c.to)
+	case "sinspect":
+		return !uses(c.from)
 	}
 	return false
 }
 
 func oracle(w *out.W, c *tcase, r *result) {
-	ctxt := fmt.Sprintf("start=%s cmd=%s latest=%d from=%s to=%s exit=%d outcome=%s", c.start, c.cmd, c.latest, c.from.kind, c.to.kind, r.exit, r.outcome)
+	ctxt := fmt.Sprintf("start=%s cmd=%s via=%s ro=%v latest=%d from=%s to=%s exit=%d outcome=%s", c.start, c.cmd, c.via, c.ro, c.latest, c.from.kind, c.to.kind, r.exit, r.outcome)
 	if r.corrupt != "" {
 		w.Violation(c.id, "dev-unreadable-after", ctxt+": the dev database file cannot be read after the command: "+r.corrupt)
 		return
 	}
-	if r.startObjs > 0 {
-		// refused if not empty, and then completely untouched
+	restoreFault := c.ro
+	for _, b := range c.rs {
+		restoreFault = restoreFault || b
+	}
+	switch {
+	case r.startUser > 0:
+		// contains something: refused, and then completely untouched
 		if !r.same || !r.bytesSame {
-			w.Violation(c.id, "nonempty-dev-damaged", ctxt+fmt.Sprintf(": the dev database held %d object(s) and was modified (logical dump equal=%v, bytes equal=%v, empty afterwards=%v)", r.startObjs, r.same, r.bytesSame, r.empty))
-		} else if r.outcome != "refused" && !(hclOnly(c) && !c.norm) {
+			w.Violation(c.id, "nonempty-dev-damaged", ctxt+fmt.Sprintf(": the dev database held %d object(s) and was modified (logical dump equal=%v, bytes equal=%v, empty afterwards=%v)", r.startUser, r.same, r.bytesSame, r.empty))
+		} else if r.outcome != "refused" && !noSession(c) {
 			w.Violation(c.id, "nonempty-dev-not-refused", ctxt+": the dev database was not empty and the command did not refuse it")
 		}
-	} else if !r.empty {
+	case restoreFault:
+		// a statement of the RestoreFunc was made to fail: outside the property's quantifier
+		// (decision in Props_C14.v); the correspondence still compares the final state
+		if c.ro && !(r.same && r.bytesSame) {
+			w.Violation(c.id, "readonly-dev-modified", ctxt+": read-only connection, yet the dev database file changed")
+		}
+	case r.outcome == "refused":
+		// nothing but engine bookkeeping (what `schema clean` leaves behind): Atlas must not refuse it
+		w.Violation(c.id, "clean-dev-refused", ctxt+fmt.Sprintf(": the dev database held no user object (%d bookkeeping row(s)) and was refused", r.startObjs))
+	case !r.empty && !(r.same && r.bytesSame):
 		w.Violation(c.id, "dev-not-handed-back-empty", ctxt+": the dev database was empty before and is not empty after the command")
 	}
 	if r.dirw {
 		ok := false
-		if c.cmd == "diff" && r.exit == 0 {
-			// WritePlan: new file(s) in the migration directory and the sum file, nothing else
+		if (c.cmd == "diff" || c.cmd == "checkpoint") && r.exit == 0 {
+			// WritePlan / WriteCheckpoint: new file(s) in the migration directory and the sum file, nothing else
 			ok = true
 			for _, d := range strings.Split(r.dirDiff, ",") {
 				if !(strings.HasPrefix(d, "added:migrations/") && strings.HasSuffix(d, ".sql")) && d != "changed:migrations/atlas.sum" {
@@ -766,7 +875,7 @@ func trunc(s string, n int) string {
 	return s
 }
 
-// ---------------------------------------------------------------- generator
+// ---------------------------------------------------------------- generator (cli)
 
 // ms numbers the statements of one script: marker = 100*script + position,
 // scripts being counted per case (directory files first, then the sources).
@@ -783,39 +892,72 @@ type variant struct {
 	name   string
 	cmd    string
 	latest int
-	ckpt   bool
-	from   string // none sql dir hcl
+	shape  string // directory shape: "" two files, "ck" with a checkpoint, "long" four files (12 statements in the first), "ck2" two checkpoints
+	from   string // none url sql dir sdir hcl
 	to     string
+	via    string
 }
 
 var variants = []variant{
-	{"validate", "validate", 0, false, "none", "none"},
-	{"validate-ck", "validate", 0, true, "none", "none"},
-	{"lint-1", "lint", 1, false, "none", "none"},
-	{"lint-all", "lint", 9, false, "none", "none"},
-	{"lint-ck-all", "lint", 9, true, "none", "none"},
-	{"lint-ck-2", "lint", 2, true, "none", "none"},
-	{"diff-sql", "diff", 0, false, "none", "sql"},
-	{"diff-hcl", "diff", 0, false, "none", "hcl"},
-	{"diff-ck-sql", "diff", 0, true, "none", "sql"},
-	{"sdiff-sql-sql", "sdiff", 0, false, "sql", "sql"},
-	{"sdiff-dir-hcl", "sdiff", 0, false, "dir", "hcl"},
-	{"sdiff-hcl-sql", "sdiff", 0, false, "hcl", "sql"},
-	{"sdiff-hcl-hcl", "sdiff", 0, false, "hcl", "hcl"},
-	{"sapply-sql", "sapply", 0, false, "none", "sql"},
-	{"sapply-hcl", "sapply", 0, false, "none", "hcl"},
+	{"validate", "validate", 0, "", "none", "none", ""},
+	{"validate-ck", "validate", 0, "ck", "none", "none", ""},
+	{"validate-long", "validate", 0, "long", "none", "none", ""},
+	{"validate-env", "validate", 0, "", "none", "none", "env"},
+	{"lint-1", "lint", 1, "", "none", "none", ""},
+	{"lint-all", "lint", 9, "", "none", "none", ""},
+	{"lint-ck-all", "lint", 9, "ck", "none", "none", ""},
+	{"lint-ck-2", "lint", 2, "ck", "none", "none", ""},
+	{"lint-ck2-3", "lint", 3, "ck2", "none", "none", ""},
+	{"lint-long-all", "lint", 9, "long", "none", "none", ""},
+	{"lint-long-2", "lint", 2, "long", "none", "none", ""},
+	{"lint-git-1", "lint", 1, "", "none", "none", "git"},
+	{"lint-git-ck-2", "lint", 2, "ck", "none", "none", "git"},
+	{"diff-sql", "diff", 0, "", "none", "sql", ""},
+	{"diff-hcl", "diff", 0, "", "none", "hcl", ""},
+	{"diff-url", "diff", 0, "", "none", "url", ""},
+	{"diff-dir", "diff", 0, "", "none", "dir", ""},
+	{"diff-ck-sql", "diff", 0, "ck", "none", "sql", ""},
+	{"diff-env-sql", "diff", 0, "", "none", "sql", "env"},
+	{"sdiff-sql-sql", "sdiff", 0, "", "sql", "sql", ""},
+	{"sdiff-dir-hcl", "sdiff", 0, "", "dir", "hcl", ""},
+	{"sdiff-hcl-sql", "sdiff", 0, "", "hcl", "sql", ""},
+	{"sdiff-hcl-hcl", "sdiff", 0, "", "hcl", "hcl", ""},
+	{"sdiff-url-sdir", "sdiff", 0, "", "url", "sdir", ""},
+	{"sapply-sql", "sapply", 0, "", "none", "sql", ""},
+	{"sapply-hcl", "sapply", 0, "", "none", "hcl", ""},
+	{"sapply-sdir", "sapply", 0, "", "none", "sdir", ""},
+	{"sinspect-sql", "sinspect", 0, "", "sql", "none", ""},
+	{"sinspect-hcl", "sinspect", 0, "", "hcl", "none", ""},
 }
 
 // base inputs; every statement gets a fresh marker
-func baseDir(m *int, ckpt bool) []mfile {
-	f1 := mfile{stmts: ms(m, stmt{"ct", "t0", ""}, stmt{"ci", "i0", "t0"}, stmt{"cg", "g0", "t0"}, stmt{"in", "t0", ""})}
-	if !ckpt {
-		f2 := mfile{stmts: ms(m, stmt{"cv", "v0", ""}, stmt{"ct", "t1", ""}, stmt{"ci", "i1", "t1"})}
-		return []mfile{f1, f2}
+func baseDir(m *int, shape string) []mfile {
+	var f1 mfile
+	if shape != "long" {
+		f1 = mfile{stmts: ms(m, stmt{"ct", "t0", ""}, stmt{"ci", "i0", "t0"}, stmt{"cg", "g0", "t0"}, stmt{"in", "t0", ""})}
 	}
-	ck := mfile{ckpt: true, stmts: ms(m, stmt{"ct", "t0", ""}, stmt{"ci", "i0", "t0"}, stmt{"cv", "v1", ""})}
-	f3 := mfile{stmts: ms(m, stmt{"ct", "t1", ""}, stmt{"in", "t1", ""})}
-	return []mfile{f1, ck, f3}
+	switch shape {
+	case "ck":
+		ck := mfile{ckpt: true, stmts: ms(m, stmt{"ct", "t0", ""}, stmt{"ci", "i0", "t0"}, stmt{"cv", "v1", ""})}
+		f3 := mfile{stmts: ms(m, stmt{"ct", "t1", ""}, stmt{"in", "t1", ""})}
+		return []mfile{f1, ck, f3}
+	case "ck2":
+		ck := mfile{ckpt: true, stmts: ms(m, stmt{"ct", "t0", ""}, stmt{"ci", "i0", "t0"})}
+		f3 := mfile{stmts: ms(m, stmt{"ct", "t1", ""}, stmt{"in", "t1", ""})}
+		ck2 := mfile{ckpt: true, stmts: ms(m, stmt{"ct", "t0", ""}, stmt{"ct", "t1", ""}, stmt{"cv", "v1", ""})}
+		f5 := mfile{stmts: ms(m, stmt{"ci", "i1", "t1"})}
+		return []mfile{f1, ck, f3, ck2, f5}
+	case "long":
+		// more than 10 statements in the first file: DevLoader.first takes its one-loop path
+		l1 := mfile{stmts: ms(m, stmt{"ct", "t0", ""}, stmt{"ci", "i0", "t0"}, stmt{"ct", "t1", ""}, stmt{"ci", "i1", "t1"}, stmt{"cv", "v0", ""},
+			stmt{"cg", "g0", "t0"}, stmt{"in", "t0", ""}, stmt{"in", "t1", ""}, stmt{"ct", "t2", ""}, stmt{"di", "i1", ""}, stmt{"dv", "v0", ""}, stmt{"cv", "v1", ""})}
+		l2 := mfile{stmts: ms(m, stmt{"dt", "t2", ""}, stmt{"ct", "t3", ""}, stmt{"ci", "i3", "t3"})}
+		l3 := mfile{stmts: ms(m, stmt{"cg", "g1", "t1"}, stmt{"ct", "t4", ""}, stmt{"in", "t3", ""}, stmt{"dt", "t0", ""})}
+		l4 := mfile{stmts: ms(m, stmt{"cv", "v2", ""}, stmt{"ct", "t5", ""})}
+		return []mfile{l1, l2, l3, l4}
+	}
+	f2 := mfile{stmts: ms(m, stmt{"cv", "v0", ""}, stmt{"ct", "t1", ""}, stmt{"ci", "i1", "t1"})}
+	return []mfile{f1, f2}
 }
 
 func baseSQL(m *int, extra string) []mstmt {
@@ -842,7 +984,11 @@ func mkSource(kind string, m *int, extra string) source {
 	case "hcl":
 		return source{kind: "hcl", hcl: baseHCL(m, extra)}
 	case "dir":
-		return source{kind: "dir", dir: baseDir(m, false)}
+		return source{kind: "dir", dir: append(baseDir(m, ""), mfile{stmts: ms(m, stmt{"ct", extra, ""})})}
+	case "sdir":
+		return source{kind: "sdir", dir: []mfile{{stmts: ms(m, stmt{"ct", "t0", ""}, stmt{"ci", "i0", "t0"})}, {stmts: ms(m, stmt{"ct", extra, ""}, stmt{"cv", "v2", ""})}}}
+	case "url":
+		return source{kind: "url"}
 	}
 	return source{kind: "none"}
 }
@@ -854,7 +1000,7 @@ func failing(k int, which int) stmt {
 		opts = append(opts, stmt{"ct", "t0", ""}) // already exists
 	}
 	if k > 3 {
-		opts = append(opts, stmt{"in", "t0", ""}) // UNIQUE constraint
+		opts = append(opts, stmt{"in", "t0", ""}) // UNIQUE constraint (or no such table)
 	}
 	return opts[which%len(opts)]
 }
@@ -862,7 +1008,7 @@ func failing(k int, which int) stmt {
 // scripts returns pointers to every statement list of the case that some session executes
 func (c *tcase) scripts() []*[]mstmt {
 	var l []*[]mstmt
-	if c.cmd == "validate" || c.cmd == "lint" || c.cmd == "diff" {
+	if c.cmd == "validate" || c.cmd == "lint" || c.cmd == "diff" || c.cmd == "checkpoint" {
 		for i := range c.dir {
 			l = append(l, &c.dir[i].stmts)
 		}
@@ -871,7 +1017,7 @@ func (c *tcase) scripts() []*[]mstmt {
 		switch s.kind {
 		case "sql":
 			l = append(l, &s.sql)
-		case "dir":
+		case "dir", "sdir":
 			for i := range s.dir {
 				l = append(l, &s.dir[i].stmts)
 			}
@@ -880,16 +1026,30 @@ func (c *tcase) scripts() []*[]mstmt {
 	return l
 }
 
+func (c *tcase) setStart(st startState) *tcase {
+	c.start, c.db, c.setup = st.name, st.db, st.setup
+	return c
+}
+
 func build(v variant, st startState) *tcase {
 	m := 0
-	c := &tcase{cmd: v.cmd, latest: v.latest, start: st.name, db: st.db, changes: true}
-	c.dir = baseDir(&m, v.ckpt)
-	if v.cmd == "sdiff" || v.cmd == "sapply" {
+	c := &tcase{norm: "0", cmd: v.cmd, latest: v.latest, changes: true, via: v.via}
+	c.setStart(st)
+	c.dir = baseDir(&m, v.shape)
+	if v.cmd == "sdiff" || v.cmd == "sapply" || v.cmd == "sinspect" {
 		c.dir = nil
 	}
 	c.from = mkSource(v.from, &m, "tx")
 	c.to = mkSource(v.to, &m, "tz")
 	return c
+}
+
+func allTrue(n int) []bool {
+	l := make([]bool, n)
+	for i := range l {
+		l[i] = true
+	}
+	return l
 }
 
 func genCLI(tier string) []*tcase {
@@ -899,7 +1059,7 @@ func genCLI(tier string) []*tcase {
 		c.id = fmt.Sprintf("k%04d", len(cs))
 		cs = append(cs, c)
 	}
-	allVariants := tier == "thorough"
+	thorough := tier == "thorough"
 	// 1. every command x every start state, nothing failing
 	for _, v := range variants {
 		for _, st := range starts {
@@ -908,16 +1068,17 @@ func genCLI(tier string) []*tcase {
 	}
 	// 2. every command x a failing statement at every position of every script, on a clean start
 	n := 0
+	cleanStarts := []startState{startByName("absent"), startByName("empty"), startByName("bk-seq")}
 	for vi, v := range variants {
 		probe := build(v, starts[0])
 		for si := range probe.scripts() {
 			for k := 0; k < len(*probe.scripts()[si]); k++ {
 				kinds := 1
-				if allVariants {
+				if thorough {
 					kinds = 8
 				}
 				for w := 0; w < kinds; w++ {
-					st := starts[n%2] // absent / empty
+					st := cleanStarts[n%len(cleanStarts)]
 					n++
 					c := build(v, st)
 					sc := c.scripts()[si]
@@ -927,9 +1088,9 @@ func genCLI(tier string) []*tcase {
 			}
 		}
 	}
-	// 3. hidden-table and refused starts with a failing statement in the first script
+	// 3. refused and bookkeeping-only starts with a failing statement in the first script
 	for _, v := range variants {
-		for _, sn := range []string{"hidden-libsql", "tables", "view"} {
+		for _, sn := range []string{"combo-HR", "tables", "combo-V", "bk-seq-stat", "bk-wasm-idx"} {
 			c := build(v, startByName(sn))
 			if scs := c.scripts(); len(scs) > 0 {
 				sc := scs[0]
@@ -941,16 +1102,35 @@ func genCLI(tier string) []*tcase {
 	// 4. migrate diff with nothing to plan (directory already in sync)
 	for _, st := range []string{"absent", "empty", "tables"} {
 		m := 0
-		c := &tcase{cmd: "diff", start: st, db: startByName(st).db, changes: false}
+		c := (&tcase{norm: "0", cmd: "diff", changes: false}).setStart(startByName(st))
 		c.dir = []mfile{{stmts: ms(&m, stmt{"ct", "t0", ""}, stmt{"ci", "i0", "t0"})}}
 		c.to = source{kind: "sql", sql: ms(&m, stmt{"ct", "t0", ""}, stmt{"ci", "i0", "t0"})}
 		add(c, "diff-synced")
 	}
-	// 5. seeded random directories / sources
+	// 5. read-only connection: every write and every statement of the restore fails
+	for _, v := range variants {
+		// (lint with base files: DevLoader.base reports a failing statement by file only, and
+		// the plain error of a run whose restore fails as well does not even name the file)
+		if v.via != "" || (v.cmd == "lint" && v.latest < 9) {
+			continue
+		}
+		for _, sn := range []string{"empty", "bk-seq", "tables", "combo-H"} {
+			c := build(v, startByName(sn))
+			c.ro, c.fs, c.rs = true, allTrue(8), allTrue(8)
+			add(c, "readonly/"+v.name)
+		}
+	}
+	for _, sn := range []string{"empty", "bk-seq"} { // nothing to replay: only the restore fails
+		c := (&tcase{norm: "0", cmd: "validate", changes: true}).setStart(startByName(sn))
+		c.from, c.to = source{kind: "none"}, source{kind: "none"}
+		c.ro, c.fs, c.rs = true, allTrue(8), allTrue(8)
+		add(c, "readonly/empty-dir")
+	}
+	// 6. seeded random directories / sources
 	r := rng.FromEnv(0xC14)
-	nr := 70
-	if tier == "thorough" {
-		nr = 1500
+	nr := 120
+	if thorough {
+		nr = 2500
 	}
 	tables := []string{"t0", "t1", "t2"}
 	randStmt := func() stmt {
@@ -992,18 +1172,21 @@ func genCLI(tier string) []*tcase {
 		if r.Chance(1, 4) {
 			st = starts[r.Intn(len(starts))]
 		} else if r.Bool() {
-			st = starts[1]
+			st = starts[1+r.Intn(5)] // empty or engine bookkeeping only
 		}
 		m := 0
-		c := &tcase{cmd: v.cmd, start: st.name, db: st.db, changes: true}
-		if v.cmd != "sdiff" && v.cmd != "sapply" {
-			nf := 1 + r.Intn(3)
+		c := (&tcase{norm: "0", cmd: v.cmd, changes: true, via: v.via}).setStart(st)
+		if v.cmd != "sdiff" && v.cmd != "sapply" && v.cmd != "sinspect" {
+			nf := 1 + r.Intn(5)
 			for f := 0; f < nf; f++ {
-				c.dir = append(c.dir, mfile{ckpt: f > 0 && r.Chance(1, 4), stmts: randScript(&m, 4)})
+				c.dir = append(c.dir, mfile{ckpt: f > 0 && r.Chance(1, 4), stmts: randScript(&m, 5)})
 			}
 		}
 		if v.cmd == "lint" {
-			c.latest = 1 + r.Intn(4)
+			c.latest = 1 + r.Intn(5)
+			if c.via == "git" && c.latest > len(c.dir) {
+				c.latest = len(c.dir)
+			}
 		}
 		mk := func(kind string, extra string) source {
 			switch kind {
@@ -1013,8 +1196,12 @@ func genCLI(tier string) []*tcase {
 				return s
 			case "dir":
 				return source{kind: "dir", dir: []mfile{{stmts: randScript(&m, 3)}, {stmts: randScript(&m, 3)}}}
+			case "sdir":
+				return source{kind: "sdir", dir: []mfile{{stmts: randScript(&m, 3)}, {stmts: append(randScript(&m, 2), ms(&m, stmt{"ct", extra, ""})...)}}}
 			case "hcl":
 				return source{kind: "hcl", hcl: baseHCL(&m, extra)}
+			case "url":
+				return source{kind: "url"}
 			}
 			return source{kind: "none"}
 		}
@@ -1025,78 +1212,10 @@ func genCLI(tier string) []*tcase {
 	return cs
 }
 
-func genNorm(tier string) []*tcase {
-	var cs []*tcase
-	add := func(c *tcase, label string) {
-		c.label = label
-		c.norm = true
-		c.cmd = "sapply"
-		c.id = fmt.Sprintf("n%04d", len(cs))
-		cs = append(cs, c)
-	}
-	// tables with indexes; markers are the plan positions (CREATE TABLE, then its indexes)
-	mkTables := func(spec [][]string) []htable {
-		m := -1
-		var ts []htable
-		for _, s := range spec {
-			m++
-			t := htable{m: m, name: s[0]}
-			for _, i := range s[1:] {
-				m++
-				t.idx = append(t.idx, hidx{m, i})
-			}
-			ts = append(ts, t)
-		}
-		return ts
-	}
-	specs := [][][]string{
-		{{"t0", "i0"}, {"t1", "i1", "i2"}},             // succeeds
-		{{"t0"}},                                       // one table
-		{},                                             // nothing to create
-		{{"t0", "i0"}, {"t1", "i0"}},                   // 2nd CREATE INDEX i0 fails (position 3)
-		{{"t0", "i0", "i1"}, {"t1", "i2", "i1", "i3"}}, // fails at position 5
-		{{"t0", "i0"}, {"t0", "i1"}},                   // 2nd CREATE TABLE t0 fails (position 2)
-		{{"t0", "i0"}, {"t1"}, {"t2", "t1"}},           // index named like a table fails (position 4)
-		{{"t0", "t0"}},                                 // index named like its own table (position 1)
-	}
-	for _, api := range []string{"schema", "realm"} {
-		for _, sp := range specs {
-			for _, st := range starts {
-				c := &tcase{start: st.name, db: st.db, api: api, to: source{kind: "hcl", hcl: mkTables(sp)}, from: source{kind: "none"}}
-				add(c, "norm/"+api)
-			}
-		}
-	}
-	r := rng.FromEnv(0xC14A)
-	nr := 150
-	if tier == "thorough" {
-		nr = 3000
-	}
-	for i := 0; i < nr; i++ {
-		var sp [][]string
-		nt := 1 + r.Intn(3)
-		for t := 0; t < nt; t++ {
-			row := []string{rng.Pick(r, []string{"t0", "t1", "t2", "t3"})}
-			ni := r.Intn(3)
-			for k := 0; k < ni; k++ {
-				row = append(row, rng.Pick(r, []string{"i0", "i1", "i2", "i3", "t1"}))
-			}
-			sp = append(sp, row)
-		}
-		st := starts[r.Intn(2)]
-		if r.Chance(1, 5) {
-			st = starts[r.Intn(len(starts))]
-		}
-		c := &tcase{start: st.name, db: st.db, api: rng.Pick(r, []string{"schema", "realm"}), to: source{kind: "hcl", hcl: mkTables(sp)}, from: source{kind: "none"}}
-		add(c, "norm-random/"+c.api)
-	}
-	return cs
-}
-
 // ---------------------------------------------------------------- main
 
 func main() {
-	mode := flag.String("mode", "cli", "cli|norm")
+	mode := flag.String("mode", "cli", "cli|api")
 	tier := flag.String("tier", "quick", "quick|thorough")
 	outDir := flag.String("out", "", "output directory")
 	flag.Parse()
@@ -1110,41 +1229,27 @@ func main() {
 	if tmpRoot == "" {
 		tmpRoot = os.TempDir()
 	}
-	var cases []*tcase
+	var (
+		cases   []*tcase
+		results []result
+	)
 	switch *mode {
 	case "cli":
 		cases = genCLI(*tier)
-	case "norm":
-		cases = genNorm(*tier)
-	default:
-		fmt.Fprintln(os.Stderr, "unknown mode")
-		os.Exit(2)
-	}
-	bin := os.Getenv("ATLAS_BIN")
-	if *mode == "cli" {
+		bin := os.Getenv("ATLAS_BIN")
 		if _, err := os.Stat(bin); err != nil {
 			fmt.Fprintln(os.Stderr, "ATLAS_BIN not found:", bin)
 			os.Exit(2)
 		}
+		results = make([]result, len(cases))
+		parallel(len(cases), func(i int) { results[i] = runCLI(cases[i], bin, tmpRoot) })
+	case "api":
+		cases, results = genRunAPI(*tier, tmpRoot)
+	default:
+		fmt.Fprintln(os.Stderr, "unknown mode")
+		os.Exit(2)
 	}
-	results := make([]result, len(cases))
-	var wg sync.WaitGroup
-	sem := make(chan struct{}, runtime.NumCPU())
-	for i := range cases {
-		wg.Add(1)
-		sem <- struct{}{}
-		go func(i int) {
-			defer wg.Done()
-			defer func() { <-sem }()
-			if *mode == "cli" {
-				results[i] = runCLI(cases[i], bin, tmpRoot)
-			} else {
-				results[i] = runNorm(cases[i], tmpRoot)
-			}
-		}(i)
-	}
-	wg.Wait()
-	w.Rule = "non-trivial = the case is refused, or a statement fails in some session, or a session runs with a restore in mid-body (lint checkpoint), or the plan is written; key = case line"
+	w.Rule = "non-trivial = the case is refused, or a statement or a restore fails in some session, or a session runs with a restore in mid-body (lint checkpoint), or the directory is written; key = case line"
 	w.Exhaust = true
 	bad := 0
 	for i, c := range cases {
@@ -1159,15 +1264,26 @@ func main() {
 		w.Case(c.id, line, []string{r.obs})
 		w.Count("label/" + strings.SplitN(c.label, "/", 2)[0])
 		w.Count("cmd/" + c.cmd)
-		w.Count("start/" + c.start)
+		if strings.HasPrefix(c.start, "combo-") {
+			w.Count("start/combo")
+		} else {
+			w.Count("start/" + c.start)
+		}
 		w.Count("outcome/" + strings.SplitN(r.outcome, ":", 2)[0])
 		if r.dirw {
 			w.Count("dir-written")
 		}
-		if r.startObjs > 0 && r.outcome != "refused" && r.same {
+		if r.startUser > 0 && r.outcome != "refused" && r.same {
 			w.Count("nonempty-no-session-untouched")
 		}
-		if r.outcome != "ok" || r.dirw || (c.cmd == "lint" && strings.Contains(line, " 1 ")) {
+		if r.startUser == 0 && r.startObjs > 0 && r.outcome != "refused" {
+			w.Count("bookkeeping-only-accepted")
+		}
+		midRestore := false
+		for _, f := range c.dir {
+			midRestore = midRestore || (c.cmd == "lint" && f.ckpt)
+		}
+		if r.outcome != "ok" || r.dirw || midRestore {
 			w.NonTrivial(line)
 		}
 		oracle(w, c, r)
@@ -1176,4 +1292,19 @@ func main() {
 		w.Close()
 		os.Exit(1)
 	}
+}
+
+func parallel(n int, f func(i int)) {
+	var wg sync.WaitGroup
+	sem := make(chan struct{}, runtime.NumCPU())
+	for i := 0; i < n; i++ {
+		wg.Add(1)
+		sem <- struct{}{}
+		go func(i int) {
+			defer wg.Done()
+			defer func() { <-sem }()
+			f(i)
+		}(i)
+	}
+	wg.Wait()
 }
